@@ -446,6 +446,17 @@ def gen_case_flat(rng, tier, cond_only=False):
         for i in doms[0][1]:
             if inner_field == 'items' and len(heap[i][F['items']]) < 2:
                 heap[i][F['items']] = [rng.choice(INT_ALPHA) for _ in range(rng.randint(2, 3))]
+    if not cond_only and rng.random() < 0.15:
+        # NESTED unnest: flatten(flatten(x.groups)) - the groups of a parent, then the elements of each group; both levels (and the
+        # parent) selected in any order, optionally a condition on the parent: each element keeps the group and the parent it came from
+        for i in doms[0][1]:
+            heap[i][F['groups']] = [[rng.randint(0, 3) for _ in range(rng.randint(1, 3))] for _ in range(rng.randint(1, 3))]
+        g = ['flat', 5, ['map', ['f', F['groups']], ['var', 1]]]
+        e = ['flat', 6, g]
+        sel = rng.choice([[e, g], [e, ['var', 1], g], [e, g, ['var', 1]], [g, e], [['var', 1], e, g], [e]])
+        cond = None if rng.random() < 0.5 else ['cmp', rng.choice(['==', '!=']), ['map', ['f', F[rng.choice('ab')]], ['var', 1]], ['lit', rng.choice(INT_ALPHA)]]
+        return dict(heap=heap, doms=doms, binders=[['var', 1], ['flat', 5, g[2]], ['flat', 6, g]], sel=sel, cond=cond, form='set_of',
+                    list_items=rng.random() < 0.5)
     ft = ['map', ['f', F[inner_field]], ['var', 1]]
     flat = ['flat', 5, ft]
     ops = ['==', '!='] if inner_field == 'groups' else OPS        # (a tuple and an int cannot be ordered: Python raises)
@@ -702,6 +713,7 @@ def gen_case_dedup(rng, tier=None):
     heap = gen_heap(rng, nobj, True)
     for o in heap:
         o[0], o[1] = rng.randint(0, 1), rng.randint(0, 2)
+        o[7] = {'o': rng.randrange(nobj)}
         o[8] = o[0] >= 2
     nv = rng.choice([2, 2, 3])
     keys = list(range(1, nv + 1))
@@ -711,9 +723,14 @@ def gen_case_dedup(rng, tier=None):
 
     def leaf():
         r = rng.random()
-        if r < 0.45:
+        if r < 0.4:
             return ['cmp', rng.choice(ops), fa(rng.choice(keys)), ['lit', rng.randint(0, 2)]]
         j, k = rng.sample(keys, 2)
+        if r < 0.55:
+            # a BARE variable compared with an object-valued attribute of another one (q == r.peer, either way round): the
+            # comparison enumerates the bare variable's own domain rows under whatever is bound already
+            peer = ['map', ['f', F['peer']], ['var', k]]
+            return ['cmp', rng.choice(['==', '==', '!=']), ['var', j], peer] if rng.random() < 0.7 else ['cmp', rng.choice(['==', '!=']), peer, ['var', j]]
         return ['cmp', rng.choice(ops), fa(j), fa(k)]
 
     def tree(d):
@@ -751,6 +768,73 @@ def gen_case_dedup(rng, tier=None):
         sel[rng.randrange(len(sel))] = ['map', ['f', F[rng.choice('ab')]], ['var', selk[0]]]
     return dict(heap=heap, doms=[d for d in doms if d[0] in used], binders=[['var', k] for k in keys if k in used],
                 sel=sel, cond=cond, form='entity' if len(sel) == 1 and rng.random() < 0.5 else 'set_of')
+
+
+def gen_case_object_join(rng, tier=None):
+    """three variables; a BARE variable compared with an object-valued attribute of a second one (q == r.peer) next to a condition on
+    a third (p.a == 1), combined by or_ / and_-under-or_ / a negated and_: the comparison enumerates q's own domain rows while p is
+    already bound, and q is enumerated AGAIN elsewhere (the other branch leaves it free: bound with the selection)"""
+    nobj = rng.randint(3, 6)
+    heap = gen_heap(rng, nobj, True)
+    for o in heap:
+        o[0], o[1] = rng.randint(0, 1), rng.randint(0, 1)
+        o[7] = {'o': rng.randrange(nobj)}
+        o[8] = o[0] >= 2
+    keys = [1, 2, 3]
+    doms = [[k, rng.sample(range(nobj), rng.randint(2, min(3, nobj)))] for k in keys]
+    p, q, r = rng.sample(keys, 3)
+    one = lambda k: ['cmp', rng.choice(['==', '!=']), ['map', ['f', F[rng.choice('ab')]], ['var', k]], ['lit', rng.randint(0, 1)]]
+    peer = ['map', ['f', F['peer']], ['var', r]]
+    join = ['cmp', rng.choice(['==', '==', '!=']), ['var', q], peer] if rng.random() < 0.75 else ['cmp', '==', peer, ['var', q]]
+    shape = rng.randrange(4)
+    if shape == 0:
+        cond = ['or', one(p), join, rng.choice(['fn', 'op'])]
+    elif shape == 1:
+        cond = ['or', ['and', one(p), join, 'fn'], one(p), 'fn']
+    elif shape == 2:
+        cond = ['not', ['and', one(p), join, 'fn'], 'fn']
+    else:
+        cond = ['and', ['or', one(p), join, 'fn'], one(rng.choice([p, q, r])), 'fn']
+    sel = [['var', k] for k in rng.sample(keys, 3)]
+    if rng.random() < 0.3:
+        sel = sel[:2]
+    used = cond_keys(cond, set())
+    return dict(heap=heap, doms=[d for d in doms if d[0] in used], binders=[['var', k] for k in keys if k in used],
+                sel=[t for t in sel if t[1] in used], cond=cond, form='set_of')
+
+
+def gen_case_negated_conjunction(rng, tier=None):
+    """not_(and_(A, B, C)) over two variables - rewritten to a disjunction NESTED in the left operand of another one -: A joins x and
+    y, B is literal-free and over y alone (its verdicts are cached per y and shared by the rows of different x), C is a further
+    condition; 0/1-valued attributes so that rows agree on B's variables; also the same written as a disjunction of negations"""
+    nobj = rng.randint(4, 7)
+    heap = gen_heap(rng, nobj, True)
+    for o in heap:
+        o[0], o[1] = rng.randint(0, 1), rng.randint(0, 1)
+        o[5] = rng.random() < 0.5
+        o[8] = o[0] >= 2
+    x, y = rng.sample([1, 2], 2)
+    doms = [[k, rng.sample(range(nobj), rng.randint(2, 4))] for k in (1, 2)]
+    fa = lambda k, f=None: ['map', ['f', F[f or rng.choice('ab')]], ['var', k]]
+    A = ['cmp', rng.choice(['==', '!=', '<=', '<']), fa(x), fa(y)]
+    B = rng.choice([['truth', fa(y, 'f')], ['cmp', rng.choice(['==', '<=', '!=']), fa(y, 'a'), fa(y, 'b')], ['cmp', '==', fa(y), fa(y)]])
+    C = rng.choice([['cmp', rng.choice(['==', '!=']), fa(x), fa(y)], ['cmp', rng.choice(['==', '!=']), fa(x), ['lit', rng.randint(0, 1)]],
+                    ['truth', fa(x, 'f')]])
+    parts = [A, B, C]
+    if rng.random() < 0.3:
+        rng.shuffle(parts)
+    r = rng.random()
+    if r < 0.5:
+        cond = ['not', ['and', ['and', parts[0], parts[1], 'fn'], parts[2], rng.choice(['fn', 'chain'])], rng.choice(['fn', 'op'])]
+    elif r < 0.75:
+        n = lambda c: ['not', c, 'fn']
+        cond = ['or', ['or', n(parts[0]), n(parts[1]), 'fn'], n(parts[2]), 'fn']
+    else:
+        cond = ['and', ['not', ['and', parts[0], parts[1], 'fn'], 'fn'], ['not', parts[2], 'fn'], 'fn'] if rng.random() < 0.5 else \
+            ['not', ['and', parts[0], ['and', parts[1], parts[2], 'fn'], 'fn'], 'fn']
+    sel = [['var', 1], ['var', 2]]
+    rng.shuffle(sel)
+    return dict(heap=heap, doms=doms, binders=[['var', 1], ['var', 2]], sel=sel, cond=cond, form='set_of')
 
 
 def gen_pair(rng, tier):
